@@ -1,14 +1,15 @@
 import os
 ID = 'C14'
 LEVEL = 'other'
-CONTRACT_MODULES = ['contracts.time_utils']
-CONE = ['csep.utils.time_utils.epoch_time_to_utc_datetime', 'csep.utils.time_utils.datetime_to_utc_epoch', 'lemma:csep.utils.time_utils.round_trips']
+CONTRACT_MODULES = ['contracts.time_utils', 'contracts.catalogs']
+CONE = ['csep.utils.time_utils.epoch_time_to_utc_datetime', 'csep.utils.time_utils.datetime_to_utc_epoch', 'lemma:csep.utils.time_utils.round_trips',
+        'csep.core.catalogs.AbstractBaseCatalog.from_dict']
 ORACLE_MODULES = ['rt.oracles_io']
 BOUNDED = os.path.exists(os.path.join(os.path.dirname(__file__), '..', 'rt', 'bounded_C14.py'))
 FLOAT_MODEL = 'E for the time conversions (see C15); concrete executions otherwise'
 TRUSTED = ['the oracles in rt/ compute the expected outcome from the property statement, independently of the code under test', 'pyvc engine, z3 5.1']
-ASSUMPTIONS = ['the functions of this property are outside the deductive reach of the engine in this round (generators, file readers, recursion over tiles, whole-test pipelines): every clause is decided by the bounded run-time contract only; see DESIGN.md section 10']
-EXPLANATION = 'the origin-time part of every round trip rests on the proved epoch<->datetime contracts (C15); writers/readers (csv, json, pandas, str/float) are exercised by the bounded run-time contract only'
+ASSUMPTIONS = ['proved: from_dict hands the stored event list to the constructor unchanged and restores every stored attribute - catalog id for every integer including 0, name, format, flags, access time - when the dictionary has them (constructor observed through a recording stub); the origin-time conversions of every round trip (C15)', 'the writers / readers themselves (csv, json, pandas, str/float, the structured-array constructor, ids with delimiters) are exercised by the bounded run-time contract only']
+EXPLANATION = 'from_dict attribute restoration (falsy values too) under contract; the origin-time part of every round trip rests on the proved epoch<->datetime contracts (C15); writers/readers (csv, json, pandas, str/float) are exercised by the bounded run-time contract'
 TECHNIQUE = 'bounded stand-in: run-time form of the contracts on the real code (small-scope enumeration + directed cases), labelled bounded, nothing counted as proved; deductive part: contracts of the shared callees'
-LEVEL_TEXT = 'other: the shared callees are proved (see cone); the property-level clauses are decided by the bounded run-time contract only'
+LEVEL_TEXT = 'other: from_dict attribute restoration and the time conversions are proved; the file / frame formats are decided by the bounded run-time contract only'
 LEVEL_NOTE = 'bounded only; oracle independence trusted'
